@@ -173,6 +173,15 @@ def parse_circexplorer(args:argparse.Namespace):
             tally.skipped.invalid_record += 1
             tally.skipped.total += 1
             continue
+        except (KeyError, ValueError):
+            logger.warning(
+                "The CIRCexplorer record %s from transcript %s does not match"
+                " the annotation. Skipping it from parsing.",
+                record.name, record.isoform_name
+            )
+            tally.skipped.invalid_record += 1
+            tally.skipped.total += 1
+            continue
         except:
             logger.error('Exception raised from record: %s', record.name)
             raise
